@@ -16,6 +16,13 @@ CLAIMS = {
             "It decides the shape of the code for all inputs/schedules, not the run-time behaviour as a whole.",
             "Trusted: CPython heapq, cooperative scheduling (handlers atomic between yields), the rule pack's reading of which statements are 'core'.",
             "DESIGN.md §5 C01"),
+    "C02": ("constructor-keyword provenance + per-path return discipline (feasible-path enumeration) + latch/ordering dataflow on SimFuture",
+            "Structural necessary conditions of process/future semantics decided on every path of ProcessContinuation.invoke, Event.invoke and "
+            "SimFuture: the continuation carries the same generator/hooks/context and time = self.time + yielded delay (or the fresh clock "
+            "on future resumption); each path returns exactly what it must (park | side effects + continuation | value + hooks once); "
+            "hook list and callbacks are one-shot; resolve() is a latch; any_of/all_of index/count bookkeeping.",
+            "Trusted: CPython generator protocol; that a pushed continuation is delivered once (C01).",
+            "DESIGN.md §5 C02"),
 }
 
 NOT_YET = "rule pack not built yet in this session (see DESIGN.md §11); no check is claimed for it"
